@@ -312,7 +312,6 @@ func runC08(c *Ctx) {
 		g := NewGate(c.P)
 		g.Inline = inlineOnly()
 		s := g.Eval(sel)
-		_ = g.U
 		ps := g.ParamExprs(sel)
 		for i, p := range sel.Params {
 			if !strings.HasSuffix(typeStr(p.Type()), "[]*rules.NetworkRule") {
@@ -324,7 +323,9 @@ func runC08(c *Ctx) {
 				if ef.Kind == "call" && ef.Call.Aux == calleeName(filter) {
 					arg := ef.Call.Args[0]
 					if arg == ps[i] || (arg.Op == "call" && len(arg.Args) > 0 && arg.Args[0] == ps[i]) {
-						ok = ef.Cond == True
+						// unconditional, or skipped only for an empty list (nothing to filter)
+						u := g.U
+						ok = ef.Cond == True || ef.Cond == u.bdd.Not(u.ToBool(u.Eq(u.Len(ps[i]), u.Int(0))))
 					}
 				}
 			}
